@@ -66,7 +66,7 @@ CHECKS = {
             dict(name='additions', Depth=1, SeedIds=[1, 2, 5, 8, 11], Modes='ModesAll', HistOps=[],
                  TargetOps=['add_face3', 'add_face_v3', 'add_cell4', 'tet_add_cell_4', 'tet_add_cell_v', 'tet_add_cell_v_taken', 'tet_add_cell_new'],
                  q=1, sample=12000),
-            dict(name='face-entry', Depth=2, SeedIds=[2, 8], Modes='ModesAll', HistOps=['delete_cell'], TargetOps=['tet_face_entry'], q=1, sample=8000),
+            dict(name='face-entry', Depth=2, SeedIds=[2, 8], Modes='ModesDefault', HistOps=['delete_cell'], TargetOps=['tet_face_entry'], q=1, sample=6000),
             dict(name='additions-2', Depth=2, SeedIds=[2, 5, 8], Modes='ModesDefault', HistOps=['delete_cell', 'collapse_edge'],
                  TargetOps=['add_cell4', 'tet_add_cell_4', 'tet_add_cell_v', 'tet_add_cell_v_taken', 'tet_add_cell_new'],
                  q=1, sample=8000),
